@@ -259,6 +259,7 @@ pub fn run_case(case: &Arc<Case>, ctx: &Arc<ExecCtx>) -> RunInfo {
         tctx.log(Ev::Trace(te));
     }));
     verif::install(hooks);
+    ctx.wake_on_drop.store(case.cfg.wake_on_drop, Ordering::SeqCst);
 
     let Bench { sim_init, addrs, mut sinks, mut sources, orphans } = node::build(case, ctx);
     let t0 = mt(case.cfg.t0);
@@ -437,20 +438,44 @@ pub fn run_case(case: &Arc<Case>, ctx: &Arc<ExecCtx>) -> RunInfo {
         let _ = h.join();
     }
 
-    // Drop: simulation first, then the external handles.
+    // Drop: the simulation and the external handles, in either order.
+    // (Orphan mailboxes are the user's own objects, not handles of the simulation: they are
+    // always dropped last.)
+    let mut externals = Some((scheduler, keys.drain(), sources, sinks, addrs));
+    if case.cfg.drop_handles_first {
+        drop(externals.take());
+    }
     ctx.log(Ev::DropSimBegin);
+    ctx.sim_dropping.store(true, Ordering::SeqCst);
     let dr = catch_unwind(AssertUnwindSafe(|| drop(sim.take())));
     if let Err(p) = dr {
         ctx.violation("api_panicked", format!("drop(Simulation) panicked: {}", payload_text(&*p)));
     }
+    ctx.sim_dropping.store(false, Ordering::SeqCst);
     ctx.sim_dropped.store(true, Ordering::SeqCst);
     ctx.log(Ev::DropSimEnd);
-    drop(scheduler);
-    drop(keys.drain());
-    drop(sources);
-    drop(sinks);
-    drop(addrs);
+    drop(externals.take());
     drop(orphans);
+    // From here on no waker may be used by the harness itself.
+    ctx.wake_on_drop.store(false, Ordering::SeqCst);
+    let ws = std::mem::take(&mut *ctx.wakers.lock().unwrap());
+    drop(ws);
+    // A timed-out step of the single-threaded executor is abandoned on a
+    // detached helper thread: give it the chance to finish so that what it
+    // still does after the drop is observed (bounded).
+    if case.cfg.timeout_set && case.cfg.threads <= 1 {
+        for _ in 0..20_000 {
+            let models_alive = ctx.toks.lock().unwrap_or_else(|e| e.into_inner()).live.values().any(|k| *k == crate::ctx::TokKind::Model);
+            if !models_alive {
+                break;
+            }
+            rt::yield_now();
+        }
+    }
+
+    // Nothing of the library may be left in the context, which outlives the execution.
+    ctx.pool_closed.store(true, Ordering::SeqCst);
+    ctx.wake_on_drop.store(false, Ordering::SeqCst);
     let ws = std::mem::take(&mut *ctx.wakers.lock().unwrap());
     drop(ws);
 
